@@ -6,7 +6,8 @@ from . import batch
 
 FAULT_KEYS = ('hold_data', 'split_delivery', 'forced_delivery', 'hold_connect', 'hold_accept', 'hold_eof',
               'connect_refused', 'clock_jumps', 'eof_delivered', 'rst_delivered', 'crash_fin', 'crash_rst',
-              'crash_silent', 'crash_cut_midstream', 'write_after_close')
+              'crash_silent', 'crash_cut_midstream', 'disconnect_rst', 'disconnect_silent', 'disconnect_half',
+              'write_after_close')
 
 
 def write(spec, tier, seed, agg, wall, n_viol, known_lines):
